@@ -82,6 +82,7 @@
 #include <bxdecay0/Ni64low.h>
 #include <bxdecay0/Os186low.h>
 #include <bxdecay0/Os190low.h>
+#include <bxdecay0/Pt192low.h>
 #include <bxdecay0/P32.h>
 #include <bxdecay0/Pa231.h>
 #include <bxdecay0/Pa234m.h>
@@ -129,11 +130,13 @@
 #include <bxdecay0/Te134.h>
 #include <bxdecay0/Th230.h>
 #include <bxdecay0/Th234.h>
+#include <bxdecay0/Ti46low.h>
 #include <bxdecay0/Ti48low.h>
 #include <bxdecay0/Tl207.h>
 #include <bxdecay0/Tl208.h>
 #include <bxdecay0/U234.h>
 #include <bxdecay0/U238.h>
+#include <bxdecay0/W184low.h>
 #include <bxdecay0/Xe128low.h>
 #include <bxdecay0/Xe129m.h>
 #include <bxdecay0/Xe130low.h>
@@ -2200,6 +2203,9 @@ namespace bxdecay0 {
       if (trace) {
         std::cerr << "[debug] bxdecay0::genbbsub: Process de-excitation particles..." << std::endl;
       }
+      if (name_starts_with(chnuclide_, "Ca46")) {
+        Ti46low(prng_, event_, bb_params_.levelE);
+      }
       if (name_starts_with(chnuclide_, "Ca48")) {
         Ti48low(prng_, event_, bb_params_.levelE);
       }
@@ -2322,6 +2328,12 @@ namespace bxdecay0 {
       }
       if (name_starts_with(chnuclide_, "W186")) {
         Os186low(prng_, event_, bb_params_.levelE);
+      }
+      if (name_starts_with(chnuclide_, "Os184")) {
+        W184low(prng_, event_, bb_params_.levelE);
+      }
+      if (name_starts_with(chnuclide_, "Os192")) {
+        Pt192low(prng_, event_, bb_params_.levelE);
       }
       if (name_starts_with(chnuclide_, "Pt190")) {
         Os190low(prng_, event_, bb_params_.levelE);
